@@ -84,6 +84,7 @@ func loadEnv(ctx context.Context, root string, init bool) (*env.DoltEnv, error) 
 // NewWorld initialises a repository below root and starts the engine.
 func NewWorld(ctx context.Context, root string) (*World, error) {
 	w := &World{Root: root, nextCon: 1}
+	os.Setenv("DOLT_ROOT_PATH", root)
 	dEnv, err := loadEnv(ctx, root, true)
 	if err != nil {
 		return nil, err
@@ -166,6 +167,49 @@ func (w *World) NewSession(ctx context.Context, autocommit bool) (*Sess, error) 
 		return nil, err
 	}
 	return s, nil
+}
+
+// NewSessionNoDB opens an autocommit session without selecting a database (statements name theirs).
+func (w *World) NewSessionNoDB(ctx context.Context) (*Sess, error) {
+	w.nextCon++
+	base := sql.NewBaseSessionWithClientServer("dsim", sql.Client{User: "root", Address: "%"}, w.nextCon)
+	ds, err := w.SE.NewDoltSession(ctx, base)
+	if err != nil {
+		return nil, err
+	}
+	s := &Sess{w: w, ID: len(w.Sess), ds: ds, Autocommit: true}
+	w.Sess = append(w.Sess, s)
+	if _, err := s.Exec(ctx, "SET @@autocommit = 1"); err != nil {
+		return nil, err
+	}
+	return s, nil
+}
+
+// RestartAnyDB is Restart for worlds whose root database may have been dropped (the server then
+// runs on the nested databases alone).
+func (w *World) RestartAnyDB(ctx context.Context) error {
+	for _, s := range w.Sess {
+		s.End()
+	}
+	w.Sess = nil
+	if err := w.SE.Close(); err != nil {
+		return fmt.Errorf("engine close: %w", err)
+	}
+	if err := dbfactory.CloseAllLocalDatabases(); err != nil {
+		return fmt.Errorf("closing databases: %w", err)
+	}
+	fs, err := filesys.LocalFilesysWithWorkingDir(w.Root)
+	if err == nil {
+		fs, err = fs.WithWorkingDir("test")
+	}
+	if err != nil {
+		return err
+	}
+	w.Env = env.Load(ctx, homeFunc(w.Root), fs, doltdb.LocalDirDoltDB, "test")
+	if w.Env.DBLoadError != nil && w.Env.HasDoltDataDir() {
+		return fmt.Errorf("loading the database: %w", w.Env.DBLoadError)
+	}
+	return w.startEngine(ctx)
 }
 
 func (s *Sess) End() { sql.SessionEnd(s.ds) }
